@@ -93,14 +93,16 @@ impl FileStack {
         let mut location = self.current_location.clone().expect("parsing file");
         location.push(include.path.clone());
         match fs::canonicalize(&location) {
-            Ok(path) => {
+            // Only files can be included. (A path which resolves to a directory is looked up
+            // in the libraries, and reported here if it cannot be resolved.)
+            Ok(path) if path.is_file() => {
                 if !self.black_paths.contains(&path) {
                     debug!("adding local or absolute include `{}`", location.display());
                     self.stack.push(path);
                 }
                 Ok(())
             }
-            Err(_) => self.include_library(include),
+            _ => self.include_library(include),
         }
     }
 
@@ -119,7 +121,7 @@ impl FileStack {
                 debug!("searching for `{}` in `{}`", include.path, lib.path.display());
                 // Push the canonical path: the visited set and the user inputs hold canonical paths,
                 // so any other spelling would let the same file be parsed (and defined) twice.
-                if let Ok(path) = fs::canonicalize(&libpath) {
+                if let Some(path) = fs::canonicalize(&libpath).ok().filter(|path| path.is_file()) {
                     debug!("adding include `{}` from directory", libpath.display());
                     self.stack.push(path);
                     return Ok(());
